@@ -182,4 +182,6 @@ package coins
 //@   modifies coinExists(c, id), symTaken(c, symbol), coinVolume(c, id), coinMaxOf(c, id), coinModel(c, id), symInfoOf(c, symbol), ledgerVolume(c.bus.checker, id), coinsCache
 //@ func (*Coins).GetCoinBySymbol
 //@   trusted
+//@   # a ticker in use has a current (version 0) coin
+//@   ensures version == 0 && symTaken(c, symbol) ==> result != nil
 //@   modifies coinsCache
